@@ -1,2 +1,183 @@
-// Harness-side spec helpers (not woven; used by lemma harnesses only).
+// Harness-side specification vocabulary for the exact-lattice obligations (DESIGN 3.5): symbolic
+// small integers, and the mathematical polynomials (determinant, adjugate, matrix products, Hamilton
+// product, rotation by a quaternion, quaternion -> matrix) evaluated in i64.  This is SPEC: written
+// as the textbook definitions, independent of glam's formulas.
 #![allow(dead_code)]
+use crate::vk;
+
+/// symbolic integer in [-b, b]
+#[inline(always)]
+pub fn lat(b: i8) -> i64 {
+    let i: i8 = vk::any();
+    vk::assume(i >= -b && i <= b);
+    i as i64
+}
+macro_rules! lat_arr {
+    ($($name:ident: $n:literal [$($i:tt)*]),*) => {$(
+        #[inline(always)]
+        pub fn $name(b: i8) -> [i64; $n] { [$({ let _ = $i; lat(b) }),*] }
+    )*};
+}
+lat_arr!(lat2: 2 [0 1], lat3: 3 [0 1 2], lat4: 4 [0 1 2 3], lat6: 6 [0 1 2 3 4 5], lat9: 9 [0 1 2 3 4 5 6 7 8],
+         lat12: 12 [0 1 2 3 4 5 6 7 8 9 10 11], lat16: 16 [0 1 2 3 4 5 6 7 8 9 10 11 12 13 14 15]);
+
+macro_rules! to_float {
+    ($($name:ident: $t:ty, $n:literal [$($i:tt)*]),*) => {$(
+        #[inline(always)]
+        pub fn $name(a: [i64; $n]) -> [$t; $n] { [$(a[$i] as $t),*] }
+    )*};
+}
+to_float!(f32x2: f32, 2 [0 1], f32x3: f32, 3 [0 1 2], f32x4: f32, 4 [0 1 2 3], f32x6: f32, 6 [0 1 2 3 4 5], f32x9: f32, 9 [0 1 2 3 4 5 6 7 8],
+          f32x12: f32, 12 [0 1 2 3 4 5 6 7 8 9 10 11], f32x16: f32, 16 [0 1 2 3 4 5 6 7 8 9 10 11 12 13 14 15],
+          f64x2: f64, 2 [0 1], f64x3: f64, 3 [0 1 2], f64x4: f64, 4 [0 1 2 3], f64x6: f64, 6 [0 1 2 3 4 5], f64x9: f64, 9 [0 1 2 3 4 5 6 7 8],
+          f64x12: f64, 12 [0 1 2 3 4 5 6 7 8 9 10 11], f64x16: f64, 16 [0 1 2 3 4 5 6 7 8 9 10 11 12 13 14 15]);
+
+/// the float is exactly this integer
+#[inline(always)]
+pub fn eqi32(f: f32, i: i64) -> bool { f == (i as f32) }
+#[inline(always)]
+pub fn eqi64(f: f64, i: i64) -> bool { f == (i as f64) }
+
+// ---- column-major integer matrices: entry (r, c) of an n x n matrix is a[c * n + r] ----
+#[inline(always)]
+pub fn det2(a: [i64; 4]) -> i64 { a[0] * a[3] - a[2] * a[1] }
+#[inline(always)]
+pub fn det3(a: [i64; 9]) -> i64 {
+    // Laplace expansion along the first row: sum_c (-1)^c * a(0,c) * minor(0,c)
+    let e = |r: usize, c: usize| a[c * 3 + r];
+    e(0, 0) * (e(1, 1) * e(2, 2) - e(1, 2) * e(2, 1)) - e(0, 1) * (e(1, 0) * e(2, 2) - e(1, 2) * e(2, 0))
+        + e(0, 2) * (e(1, 0) * e(2, 1) - e(1, 1) * e(2, 0))
+}
+/// 3x3 minor of a 4x4 matrix: delete row `dr`, column `dc`
+#[inline(always)]
+pub fn minor4(a: [i64; 16], dr: usize, dc: usize) -> i64 {
+    let mut m = [0i64; 9];
+    let mut c = 0;
+    let mut cc = 0;
+    while c < 4 {
+        if c != dc {
+            let mut r = 0;
+            let mut rr = 0;
+            while r < 4 {
+                if r != dr {
+                    m[cc * 3 + rr] = a[c * 4 + r];
+                    rr += 1;
+                }
+                r += 1;
+            }
+            cc += 1;
+        }
+        c += 1;
+    }
+    det3(m)
+}
+#[inline(always)]
+pub fn det4(a: [i64; 16]) -> i64 {
+    a[0] * minor4(a, 0, 0) - a[4] * minor4(a, 0, 1) + a[8] * minor4(a, 0, 2) - a[12] * minor4(a, 0, 3)
+}
+/// adjugate (transpose of the cofactor matrix): adj(A) * A == det(A) * I
+#[inline(always)]
+pub fn adj2(a: [i64; 4]) -> [i64; 4] { [a[3], -a[1], -a[2], a[0]] }
+#[inline(always)]
+pub fn adj3(a: [i64; 9]) -> [i64; 9] {
+    let e = |r: usize, c: usize| a[c * 3 + r];
+    // cofactor C(r,c) = (-1)^(r+c) * minor(r,c); adj(r,c) = C(c,r)
+    let cof = |r: usize, c: usize| -> i64 {
+        let (r0, r1) = if r == 0 { (1, 2) } else if r == 1 { (0, 2) } else { (0, 1) };
+        let (c0, c1) = if c == 0 { (1, 2) } else if c == 1 { (0, 2) } else { (0, 1) };
+        let m = e(r0, c0) * e(r1, c1) - e(r0, c1) * e(r1, c0);
+        if (r + c) % 2 == 0 { m } else { -m }
+    };
+    [cof(0, 0), cof(0, 1), cof(0, 2), cof(1, 0), cof(1, 1), cof(1, 2), cof(2, 0), cof(2, 1), cof(2, 2)]
+}
+#[inline(always)]
+pub fn adj4_entry(a: [i64; 16], r: usize, c: usize) -> i64 {
+    // adj(r,c) = cofactor(c,r)
+    let m = minor4(a, c, r);
+    if (r + c) % 2 == 0 { m } else { -m }
+}
+macro_rules! mat_vec {
+    ($name:ident, $n:literal, $nn:literal) => {
+        #[inline(always)]
+        pub fn $name(a: [i64; $nn], v: [i64; $n]) -> [i64; $n] {
+            let mut out = [0i64; $n];
+            let mut r = 0;
+            while r < $n {
+                let mut c = 0;
+                while c < $n {
+                    out[r] += a[c * $n + r] * v[c];
+                    c += 1;
+                }
+                r += 1;
+            }
+            out
+        }
+    };
+}
+mat_vec!(mv2, 2, 4);
+mat_vec!(mv3, 3, 9);
+mat_vec!(mv4, 4, 16);
+macro_rules! mat_mat {
+    ($name:ident, $n:literal, $nn:literal) => {
+        #[inline(always)]
+        pub fn $name(a: [i64; $nn], b: [i64; $nn]) -> [i64; $nn] {
+            let mut out = [0i64; $nn];
+            let mut c = 0;
+            while c < $n {
+                let mut r = 0;
+                while r < $n {
+                    let mut k = 0;
+                    while k < $n {
+                        out[c * $n + r] += a[k * $n + r] * b[c * $n + k];
+                        k += 1;
+                    }
+                    r += 1;
+                }
+                c += 1;
+            }
+            out
+        }
+    };
+}
+mat_mat!(mm2, 2, 4);
+mat_mat!(mm3, 3, 9);
+mat_mat!(mm4, 4, 16);
+
+// ---- quaternions (x, y, z, w) ----
+/// Hamilton product a * b
+#[inline(always)]
+pub fn hamilton(a: [i64; 4], b: [i64; 4]) -> [i64; 4] {
+    let (ax, ay, az, aw) = (a[0], a[1], a[2], a[3]);
+    let (bx, by, bz, bw) = (b[0], b[1], b[2], b[3]);
+    [
+        aw * bx + ax * bw + ay * bz - az * by,
+        aw * by - ax * bz + ay * bw + az * bx,
+        aw * bz + ax * by - ay * bx + az * bw,
+        aw * bw - ax * bx - ay * by - az * bz,
+    ]
+}
+#[inline(always)]
+pub fn qconj(a: [i64; 4]) -> [i64; 4] { [-a[0], -a[1], -a[2], a[3]] }
+/// vector part of q * (v, 0) * conj(q)   (== |q|^2 times the rotation of v by q)
+#[inline(always)]
+pub fn qrot(q: [i64; 4], v: [i64; 3]) -> [i64; 3] {
+    let r = hamilton(hamilton(q, [v[0], v[1], v[2], 0]), qconj(q));
+    [r[0], r[1], r[2]]
+}
+/// column-major 3x3 matrix M(q) with M(q) v == qrot(q, v) for all v (entries are the standard
+/// quadratic forms; for a unit quaternion this is the rotation matrix)
+#[inline(always)]
+pub fn qmat(q: [i64; 4]) -> [i64; 9] {
+    let c0 = qrot(q, [1, 0, 0]);
+    let c1 = qrot(q, [0, 1, 0]);
+    let c2 = qrot(q, [0, 0, 1]);
+    [c0[0], c0[1], c0[2], c1[0], c1[1], c1[2], c2[0], c2[1], c2[2]]
+}
+#[inline(always)]
+pub fn norm2(q: [i64; 4]) -> i64 { q[0] * q[0] + q[1] * q[1] + q[2] * q[2] + q[3] * q[3] }
+#[inline(always)]
+pub fn cross3(a: [i64; 3], b: [i64; 3]) -> [i64; 3] {
+    [a[1] * b[2] - a[2] * b[1], a[2] * b[0] - a[0] * b[2], a[0] * b[1] - a[1] * b[0]]
+}
+#[inline(always)]
+pub fn dot3(a: [i64; 3], b: [i64; 3]) -> i64 { a[0] * b[0] + a[1] * b[1] + a[2] * b[2] }
